@@ -5,7 +5,7 @@
    verified), [fo] over every outcome of decoding the filter parameter.
    Hence "for any raw URL string". *)
 From JV Require Import Model.Base Model.GoTime Gen.TypeGo Model.Schema Model.Value
-  Model.Url Proofs.C07Facts.
+  Model.Url Proofs.C07Facts Proofs.C07Fields.
 
 (* parsing returns an error or a URL, never panics (the model's loops have no
    indexing or assertion left: the repaired code, see KNOWN_FINDINGS) *)
@@ -44,10 +44,17 @@ Theorem C07_include_refuted :
 Proof. exact include_refuted. Qed.
 Print Assumptions C07_include_refuted.
 
-(* NOT PROVED here (correspondence + oracle only): the field-selection clause
-   (entries name schema types, list only that type's fields or id, no
-   duplicates, default to all fields) and the inclusion clause outside the
-   recorded finding. *)
+(* the field-selection clause: every entry of a returned URL names a schema
+   type and either is the default -- all of the type's fields -- or is a
+   non-empty duplicate-free list of that type's fields and id *)
+Theorem C07_field_selection : forall s su u,
+  new_url s su = Ok u ->
+  forall t fs, In (t, fs) (p_fields (u_params u)) -> final_entry_ok s t fs.
+Proof. exact new_url_fields. Qed.
+Print Assumptions C07_field_selection.
+
+(* NOT PROVED here (correspondence + oracle only): the inclusion clause
+   outside the recorded finding. *)
 
 Example c07_rules_example :
   sorting_rules (mkType "t" [("a", mkAttr "a" 1 false); ("b", mkAttr "b" 2 false)] [])
